@@ -131,6 +131,17 @@ impl<T: Write + Read + Seek> E57Writer<T> {
             &self.extensions,
         )?;
         let xml = transformer(xml)?;
+
+        // Control characters and the like can be part of any string handed to the writer,
+        // but XML cannot represent them and no XML parser would accept the file.
+        let is_xml_char = |c: char| matches!(c, '\t' | '\n' | '\r' | ' '..='\u{D7FF}' | '\u{E000}'..='\u{FFFD}' | '\u{10000}'..);
+        if let Some(c) = xml.chars().find(|c| !is_xml_char(*c)) {
+            Error::invalid(format!(
+                "The XML section contains the character U+{:04X} that cannot be stored in XML, please check all strings",
+                c as u32
+            ))?
+        }
+
         let xml_bytes = xml.as_bytes();
         let xml_length = xml_bytes.len();
         let xml_offset = self.writer.physical_position()?;
